@@ -15,6 +15,8 @@ import W2c2Verif.CSem.Defs
   `tv_nsec' < 10^9` and `tv_sec'·10^9 + tv_nsec' = (s·10^9 + n) + t` — nothing of `t` is truncated.
   (Timeouts `< 0` mean "infinite" and never reach this function.)
 -/
+set_option linter.unusedSimpArgs false
+
 namespace W2c2Verif.C17
 open W2c2Verif
 
